@@ -758,7 +758,7 @@ Proof.
   intros H. unfold hunt_step. destruct (find _ (st_leases st)) as [l|] eqn:F; auto.
   pose proof (find_some_forallb lease_ok _ _ _ (nr_leases _ H) F) as Hok. unfold lease_ok in Hok. split_ok.
   destruct (l_sub l); auto.
-  rewrite (retain_indep _ cx1 cx2 (Held (l_mac l))) by auto.
+  rewrite (retain_indep _ cx1 cx2 (Held (l_mac l))), (retain_indep _ cx1 cx2 (Held (l_cid l))) by auto.
   rewrite (show_decl_indep "7"); auto using retain_owned.
 Qed.
 
